@@ -374,8 +374,15 @@ impl Exec {
                 let v: u64 = num(t, 2)?;
                 let ar = &mut self.cur.arena;
                 let mark = log_len();
-                let r = guard(|| {
-                    *ar[a].get_mut() = Pay { v, tag };
+                // the three documented ways to write a payload, chosen by the value: IndexMut,
+                // Arena::get_mut, Arena::iter_mut (all must address the same node and only that node)
+                let r = guard(|| match v % 3 {
+                    0 => *ar[a].get_mut() = Pay { v, tag },
+                    1 => *ar.get_mut(a).unwrap().get_mut() = Pay { v, tag },
+                    _ => {
+                        let pos = usize::from(a) - 1;
+                        *ar.iter_mut().nth(pos).unwrap().get_mut() = Pay { v, tag }
+                    }
                 });
                 if r.is_ok() {
                     "r ok".into()
